@@ -408,10 +408,11 @@ func (s *SecureChannel) Receive(ctx context.Context) *MessageBody {
 
 			case 'C':
 				s.chunks[reqID] = append(s.chunks[reqID], chunk)
-				if n := len(s.chunks[reqID]); uint32(n) > s.c.MaxChunkCount() {
+				// a limit of zero means that there is no limit
+				if n, max := len(s.chunks[reqID]), s.c.MaxChunkCount(); max > 0 && uint32(n) > max {
 					delete(s.chunks, reqID)
 					s.chunksMu.Unlock()
-					msg.Err = errors.Errorf("too many chunks: %d > %d", n, s.c.MaxChunkCount())
+					msg.Err = errors.Errorf("too many chunks: %d > %d", n, max)
 					return msg
 				}
 				s.chunksMu.Unlock()
@@ -430,8 +431,8 @@ func (s *SecureChannel) Receive(ctx context.Context) *MessageBody {
 				return msg
 			}
 
-			if uint32(len(b)) > s.c.MaxMessageSize() {
-				msg.Err = errors.Errorf("message too large: %d > %d", uint32(len(b)), s.c.MaxMessageSize())
+			if max := s.c.MaxMessageSize(); max > 0 && uint32(len(b)) > max {
+				msg.Err = errors.Errorf("message too large: %d > %d", uint32(len(b)), max)
 				return msg
 			}
 
